@@ -7,9 +7,11 @@ import (
 	"fmt"
 	"io"
 	"io/fs"
+	"math"
 	"os"
 	"path/filepath"
 	"sort"
+	"strconv"
 	"strings"
 	"sync/atomic"
 
@@ -105,11 +107,36 @@ func sortLogNamesOldToNew(dirEntries []os.DirEntry) []string {
 	//   audit.log  audit.log.1  audit.log.2  audit.log.3  audit.log.4
 	//   $ test-app /var/log/audit/
 	//   [audit.log.4 audit.log.3 audit.log.2 audit.log.1 audit.log]
+	//
+	// The rotation suffix is compared as a number so that
+	// "audit.log.10" is older than "audit.log.9".
 	sort.Slice(oldestToNew, func(i, j int) bool {
+		ni, nj := logRotationNumber(oldestToNew[i]), logRotationNumber(oldestToNew[j])
+		if ni != nj {
+			return ni > nj
+		}
+
 		return oldestToNew[i] > oldestToNew[j]
 	})
 
 	return oldestToNew
+}
+
+// logRotationNumber returns the rotation number of an audit log file
+// name: zero for the live log ("audit.log"), N for "audit.log.N". Names
+// with any other suffix are treated as older than every numbered log.
+func logRotationNumber(name string) uint64 {
+	suffix := strings.TrimPrefix(name, "audit.log")
+	if suffix == "" {
+		return 0
+	}
+
+	n, err := strconv.ParseUint(strings.TrimPrefix(suffix, "."), 10, 64)
+	if err != nil || !strings.HasPrefix(suffix, ".") {
+		return math.MaxUint64
+	}
+
+	return n
 }
 
 // LogDirReader reads audit logs from a directory and tails the active
